@@ -423,9 +423,12 @@ def finalState (singles starL : List Param) (pargs sargs : List PosArg) (cs : Li
 def isIdentChar (c : Char) : Bool := c.isAlphanum || c == '_'
 def isIdent (n : Str) : Bool := !n.isEmpty && n.all isIdentChar
 
+/-- parameter names are distinct identifiers; no option is called `help` (its long form would be `--help`) or starts
+with an underscore (argparse would derive a different `dest` from `--_x`) -/
 def paramsOk (ps : List Param) : Bool :=
   ps.all (fun p => isIdent p.name) && distinctB (ps.map (·.name))
   && ps.all (fun p => !(p.isOpt && (dash p.name == helpName)))
+  && ps.all (fun p => !(p.isOpt && !isPublic p.name))
 
 def Member.ok (m : Member) : Bool := isIdent m.name && (!m.exposed || paramsOk m.params)
 
